@@ -674,6 +674,8 @@ def run(ctx):
     ctx.assume("multi-variable APIs (mput/mget) are examined with nvars >= 1")
     ctx.assume("classic-format file (pncp->format not NETCDF4); MPI communication calls succeed")
     ctx.assume("the full product automaton's return codes for arbitrary histories are not decided")
+    ctx.rule("R4.rdonly", "every test of the open mode that depends on the NC_WRITE bit depends on no other bit (dispatcher, driver "
+             "open functions, MPI-IO access mode), and NC_MODE_RDONLY is stored on the NC_WRITE-clear side (mode words evaluated)")
     prog = ctx.program(groups=["lib"])
     vals = bit_values(prog)
     for n in list(MODE_BITS) + list(ERR):
@@ -687,3 +689,14 @@ def run(ctx):
     check_driver_guards(ctx, prog, bits, errs)
     check_noeffect(ctx, prog, errs)
     check_precedence(ctx, prog)
+    from rules import r4rdonly
+    wbit = None
+    for u in prog.units.values():
+        if "NC_WRITE" in u.macros:
+            try:
+                wbit = int(u.macros["NC_WRITE"].strip("() "), 0)
+            except ValueError:
+                pass
+            break
+    ctx.require(wbit, "macro NC_WRITE not found / not a constant")
+    r4rdonly.check(ctx, prog, "R4.rdonly", wbit, "NC_MODE_RDONLY", 3)
